@@ -1,8 +1,8 @@
 //! C19 - hand containers store and return exactly the words put into them.
 //!
 //! E2 (explicit-state graph per size n = 2..7, the real setters as the transition function):
-//!   word alphabet W = {0, ace of spades, deuce of clubs with the pair flag, 0xFFFFFFFF, king of hearts} (thorough:
-//!   + the word 1); states = all |W|^n
+//!   word alphabet W = {0, ace of spades, the same with the pair flag, 0xFFFFFFFF, 0x1FFFFFFF, king of hearts}
+//!   (thorough: + the ace with all three flags) - closed under adding / stripping the top three bits; states = all |W|^n
 //!   containers, every one also an initial state built by every public constructor form (From<[u32; N]>, new,
 //!   From<&[u32; 2]>, Default + setters, Three(pub ..), Six::from_1_and_2_and_3, Seven::new(Two, Five));
 //!   actions = every setter x every w in W (|W| n actions). The invariant "real container == shadow array" is read
@@ -25,9 +25,12 @@ use ckc_rs::cards::Permutator;
 use std::time::Instant;
 
 fn alphabet(thorough: bool) -> Vec<u32> {
-    let mut v = vec![0, Card::new(12, 3).word(), Card::new(0, 0).word() | (1 << 29), u32::MAX, Card::new(11, 2).word()];
+    // closed under "the same word with / without its top three (multiples) bits": a setter that compares the new word
+    // with a normalised form of the stored one misbehaves exactly on such pairs
+    let a = Card::new(12, 3).word();
+    let mut v = vec![0, a, a | (1 << 29), u32::MAX, u32::MAX >> 3, Card::new(11, 2).word()];
     if thorough {
-        v.push(1);
+        v.push(a | (7 << 29));
     }
     v
 }
@@ -313,7 +316,20 @@ pub fn run(ctx: &Ctx, rep: &mut Report) {
         let t0 = Instant::now();
         let mut acc = Acc::new(1);
         for n in [6usize, 7] {
-            let cont: Vec<u32> = (0..n).map(|i| Card::from_deck_index((i * 7 + 3 + ctx.seed as usize) % 52).word()).collect();
+          let distinct: Vec<u32> = (0..n).map(|i| Card::from_deck_index((i * 7 + 3 + ctx.seed as usize) % 52).word()).collect();
+          // contents: distinct words; every pair of slots holding the same word; one blank; all slots equal
+          let mut contents = vec![distinct.clone(), vec![distinct[0]; n]];
+          for i in 0..n {
+              for j in i + 1..n {
+                  let mut c = distinct.clone();
+                  c[j] = c[i];
+                  contents.push(c);
+              }
+              let mut c = distinct.clone();
+              c[i] = 0;
+              contents.push(c);
+          }
+          for cont in contents {
             let total = (n as u64).pow(5);
             let mut idx = [0usize; 5];
             for t in 0..total {
@@ -330,12 +346,42 @@ pub fn run(ctx: &Ctx, rep: &mut Report) {
                     }
                 }
             }
+          }
         }
-        rep.guard("6^5 + 7^5 index tuples", acc.cases == 7776 + 16807, format!("{}", acc.cases));
-        rep.add_space("five_from_permutation: every in-range index tuple on Six and Seven with distinct slots", &acc, t0, "output slot k = input slot perm[k]");
+        rep.guard("(6^5) x 23 + (7^5) x 30 (index tuple, content) pairs", acc.cases == 7776 * 23 + 16807 * 30, format!("{}", acc.cases));
+        rep.add_space("five_from_permutation: every in-range index tuple on Six and Seven x contents (distinct, each slot pair equal, one blank, all equal)", &acc, t0, "output slot k = input slot perm[k]");
+    }
+    {
+        // sequences ACROSS containers: a setter history on one container followed by one on another (static state
+        // shared between containers would leak here; histories on one container are the E2 graphs above)
+        let mut items = Vec::new();
+        for n in 2..=7u64 {
+            let w = wal[1] as u64;
+            let x = wal[4] as u64;
+            let mut h = vec![n];
+            h.extend(std::iter::repeat(0).take(n as usize));
+            for slot in 0..n {
+                h.push(slot);
+                h.push(if slot % 2 == 0 { w } else { x });
+            }
+            items.push(Case::new("history", &h));
+            let mut g = vec![n];
+            g.extend((0..n).map(|i| if i % 2 == 0 { x } else { w }));
+            g.extend([n - 1, x, n - 2, x, n - 1, w]);
+            items.push(Case::new("history", &g));
+        }
+        for n in [6u64, 7] {
+            for perm in [[0u64, 0, 0, 0, 4], [1, 3, 2, 4, 5], [0, 1, 2, 3, 4], [5, 4, 3, 2, 1]] {
+                let mut p = vec![n];
+                p.extend(perm);
+                p.extend((0..n).map(|i| Card::from_deck_index((i * 7 + 3) as usize).word() as u64));
+                items.push(Case::new("permutation", &p));
+            }
+        }
+        super::history2(rep, judge, &items);
     }
     rep.sample(sample_json("history", "Seven::default(); set_seventh(0xffffffff); set_first(A♠)", &format!("{:x?}", AnyHand::default_of(7).set(6, u32::MAX).set(0, Card::new(12, 3).word()).to_vec())));
     rep.rule = "graph states (containers over W) and setter edges; distinct (setter, word, base) triples; distinct index tuples - all non-trivial (each is a distinct write or read pattern)".into();
-    rep.bound = "every setter history of ANY length over a 5-word (thorough: 6-word) alphabet (closed graphs, n = 2..7); one free word per setter; every index tuple for five-slot selection".into();
+    rep.bound = "every setter history of ANY length over a 6-word (thorough: 7-word) alphabet (closed graphs, n = 2..7); one free word per setter; every index tuple for five-slot selection".into();
     rep.assume("the state key is the complete observable content (to_arr), exact because the containers are plain Copy arrays with derived Eq");
 }
